@@ -391,7 +391,11 @@ func remoteFeeds(c *ev.Ctx, caseNo *int) {
 			continue
 		}
 		if strings.Join(keys, "|") != strings.Join(want, "|") {
-			c.Violation("feed:remote:wrong-merge", fmt.Sprintf("feed of %v\nexpected %v\ngot      %v", inputs, want, keys), d)
+			var names []string
+			for _, it := range got {
+				names = append(names, wk.StripSGR(it.Name()))
+			}
+			c.Violation("feed:remote:wrong-merge", fmt.Sprintf("feed of %v\nexpected %v\ngot      %v\nnames    %q", inputs, want, keys, names), d)
 			continue
 		}
 		c.Count("remote_feeds", 1)
